@@ -2,8 +2,10 @@
 # Model of the registrar's selector lock (pkg/regserver/regprocessor/regprocessor.go)
 
 `RegProcessor.selectorMutex` is a Go `sync.RWMutex` guarding the swappable field `ipSelector`.
-Requests (`processBdReq`) are threads whose *lock-operation program* is extracted from the source on
-every run (`CJ/Gen/LockPrograms.lean`); reloads (`ReloadSubnets`) likewise.
+Requests (`RegisterBidirectional` with `processBdReq` inlined) are threads whose *lock-operation program*
+is extracted from the source on every run (`CJ/Gen/LockPrograms.lean`: every path through every exported
+entry point of the package that touches the lock); reloads (`ReloadSubnets`) likewise.  `zmqMutex`, a
+plain `sync.Mutex` around the publishing socket, is the same model used through `lock`/`unlock` only.
 
 Semantics of the mutex (Go's writer preference, modelled, not verified):
 
@@ -175,6 +177,23 @@ def balanced : List Op → Bool
   | [] => true
   | .lock :: .unlock :: p => balanced p
   | _ => false
+
+/-! ### lock order between several mutexes (static) -/
+
+/-- the `(held, requested)` pairs of a program over several locks (operations tagged with a lock index):
+lock `requested` is acquired while lock `held` is held -/
+def nestingsFrom (held : List Nat) : List (Nat × Op) → List (Nat × Nat)
+  | [] => []
+  | (l, .rlock) :: p => held.map (·, l) ++ nestingsFrom (l :: held) p
+  | (l, .lock) :: p => held.map (·, l) ++ nestingsFrom (l :: held) p
+  | (l, .runlock) :: p => nestingsFrom (held.erase l) p
+  | (l, .unlock) :: p => nestingsFrom (held.erase l) p
+  | _ :: p => nestingsFrom held p
+
+def nestings (p : List (Nat × Op)) : List (Nat × Nat) := nestingsFrom [] p
+
+/-- no lock is requested while it is itself held, and no two locks are requested in both orders -/
+def orderAcyclic (n : List (Nat × Nat)) : Bool := n.all fun e => e.1 != e.2 && !n.contains (e.2, e.1)
 
 /-! ### executable search for a deadlock (small thread sets) -/
 
